@@ -152,6 +152,67 @@ def extract():
         raise ExtractError('SQL migration probe failed: %r' % (e,))
 
     g['regexCacheDefault'] = RegexChecker().compile.cache_info().maxsize
+
+    # Mongo data migrations: jsonpickle's reserved tags, and which class paths migration 3 `down` refuses,
+    # probed behaviourally on a one-document collection
+    try:
+        import jsonpickle.tags
+        g['reservedTags'] = sorted(jsonpickle.tags.RESERVED)
+        g['objectTag'] = jsonpickle.tags.OBJECT
+        probe_classes = []
+        import vakt.rules as _r
+        import inspect
+        from vakt.rules.base import Rule as _Rule
+        import vakt.rules.operator, vakt.rules.list, vakt.rules.logic, vakt.rules.string, vakt.rules.net, vakt.rules.inquiry
+        for mod in (vakt.rules.operator, vakt.rules.list, vakt.rules.logic, vakt.rules.string, vakt.rules.net,
+                    vakt.rules.inquiry):
+            for name, cls in sorted(vars(mod).items()):
+                if inspect.isclass(cls) and issubclass(cls, _Rule) and cls.__module__ == mod.__name__ \
+                        and not inspect.isabstract(cls):
+                    probe_classes.append('%s.%s' % (mod.__name__, name))
+        probe_classes += [o for o, _ in g['rulesRename']] + ['myapp.rules.Custom']
+        probe_classes = sorted(set(probe_classes))
+        irreversible = []
+
+        class _Coll:
+            def __init__(self, doc):
+                self.doc = doc
+                self.replaced = None
+
+            def find(self):
+                import copy as _c
+                return [_c.deepcopy(self.doc)]
+
+            def replace_one(self, flt, doc):
+                self.replaced = doc
+
+            def drop_index(self, name):
+                pass
+
+            def create_index(self, *a, **k):
+                pass
+
+        class _St:
+            condition_fields = ['actions', 'subjects', 'resources']
+
+            @staticmethod
+            def condition_field_compiled_name(x):
+                return '%s_compiled_regex' % x
+        import logging as _lg
+        _lg.getLogger('vakt').setLevel(_lg.CRITICAL)
+        for cp in probe_classes:
+            st = _St()
+            st.collection = _Coll({'_id': 'u', 'uid': 'u', 'type': policy.TYPE_STRING_BASED,
+                                   'context': {'k': {jsonpickle.tags.OBJECT: cp}}})
+            Migration1x1x1To1x2x0(st).down()
+            if st.collection.replaced is None:
+                irreversible.append(cp)
+        g['m3ProbeClasses'] = probe_classes
+        g['m3Irreversible'] = irreversible
+    except ExtractError:
+        raise
+    except Exception as e:
+        raise ExtractError('Mongo migration probe failed: %r' % (e,))
     return g
 
 
@@ -177,6 +238,11 @@ def render(g):
     L.append('def sqlOrders : List Nat := [%s]' % ', '.join(str(x) for x in g['sqlOrders']))
     L.append('def rulesRename : List (String × String) := [%s]' % ', '.join(
         '(%s, %s)' % (lean_str(a), lean_str(b)) for a, b in g['rulesRename']))
+    L.append('def objectTag : List Char := %s.toList' % lean_str(g['objectTag']))
+    L.append('def reservedTags : List String := [%s]' % ', '.join(lean_str(x) for x in g['reservedTags']))
+    L.append('/-- every rule class path of this tree (and the legacy names): does migration 3 `down` refuse it (probed) -/')
+    L.append('def m3DownRefuses : List (String × Bool) := [%s]' % ', '.join(
+        '(%s, %s)' % (lean_str(c), lean_bool(c in g['m3Irreversible'])) for c in g['m3ProbeClasses']))
     L.append('def regexCacheDefault : Option Nat := %s' % (
         'none' if g['regexCacheDefault'] is None else 'some %d' % g['regexCacheDefault']))
     L.append('')
